@@ -138,7 +138,7 @@ func randConcE2E(pol string, g int, d time.Duration) (res RandConcResult) {
 					atomic.AddInt64(&res.Bad, 1)
 					return
 				}
-				fmt.Fprintf(c, "C%d\n", id)
+				fmt.Fprint(c, fx.token(int(id)))
 				c.SetReadDeadline(time.Now().Add(5 * time.Second))
 				line, err := bufio.NewReader(c).ReadString('\n')
 				c.Close()
